@@ -284,16 +284,19 @@ package directconnection
 // log entry n is queue entry idx[n] of port src[n], retrieved during this call
 //@ pred tickDelivered(m, src, idx) = forall n int :: old(dlvN) <= n && n < dlvN ==> dlvTyp[n] == sentTyp[src[n]][idx[n]] && dlvVal[n] == sentVal[src[n]][idx[n]] && dlvTo[n] == ifaceval(byName(m.ports, dstOf(sentMsg(src[n], idx[n])))) && old(outRetr)[src[n]] <= idx[n] && idx[n] < outRetr[src[n]]
 //@ pred tickInOrder(src, idx) = forall n1 int, n2 int :: old(dlvN) <= n1 && n1 < n2 && n2 < dlvN && src[n1] == src[n2] ==> idx[n1] < idx[n2]
-// lg[pair(p, j)] = log index at which queue entry j of port p was delivered (inverse of src/idx). A map keyed by the pair
-// (p, j) is flattened with pair(p, j) = p * 2^64 + j, injective for 0 <= j < 2^64 (counters of Go calls).
-//@ const TWO64 = 18446744073709551616
-//@ func pair(p, j) = p * TWO64 + j
-//@ pred tickNoDrop(src, idx, lg) = forall p int, j int :: old(outRetr)[p] <= j && j < outRetr[p] && 0 <= j && j < TWO64 ==> old(dlvN) <= lg[pair(p, j)] && lg[pair(p, j)] < dlvN && src[lg[pair(p, j)]] == p && idx[lg[pair(p, j)]] == j
+// No drop, no gap: per source port the deliveries of the tick form a gapless run of its queue. prv[n] = log index of the
+// previous delivery of the same source in this tick (below old(dlvN): none), lst[p] = log index of p's last delivery in this
+// tick (below old(dlvN): none). The first delivery of a source carries its old queue head, consecutive deliveries carry
+// consecutive queue positions, the last one carries the position just before its new head; a source without a delivery
+// had nothing retrieved. (Map witnesses keyed by ONE integer: the engine has no map2 witnesses.)
+//@ pred tickChain(src, idx, prv) = forall n int :: old(dlvN) <= n && n < dlvN ==> (prv[n] < old(dlvN) ==> idx[n] == old(outRetr)[src[n]]) && (prv[n] >= old(dlvN) ==> prv[n] < n && src[prv[n]] == src[n] && idx[n] == idx[prv[n]] + 1)
+//@ pred tickLast(src, idx, lst) = forall p int :: (lst[p] < old(dlvN) ==> outRetr[p] == old(outRetr)[p]) && (lst[p] >= old(dlvN) ==> lst[p] < dlvN && src[lst[p]] == p && idx[lst[p]] == outRetr[p] - 1)
 //@ pred tickOnlyPlugged(m, slot) = forall p int :: outRetr[p] != old(outRetr)[p] ==> 0 <= slot[p] && slot[p] < len(m.ports.ports) && ifaceval(m.ports.ports[slot[p]]) == p
 // one loop step's update of the witness maps: the step served port P, its log segment starts at d0, its queue run at r0
 //@ func nsrc(g, d0, P) = mapof(j, j >= d0 ? P : g[j])
 //@ func nidx(g, d0, r0) = mapof(j, j >= d0 ? r0 + j - d0 : g[j])
-//@ func nlog(g, d0, P, r0, r1) = mapof(x, pair(P, r0) <= x && x < pair(P, r1) && pair(P, 0) <= x && x < pair(P + 1, 0) ? d0 + x - pair(P, r0) : g[x])
+//@ func nprv(g, d0, lastP) = mapof(j, j >= d0 ? (j == d0 ? lastP : j - 1) : g[j])
+//@ func nlst(g, P, d0, d1) = upd(g, P, d1 > d0 ? d1 - 1 : g[P])
 //@ pred retrGrows() = forall p int :: old(outRetr)[p] <= outRetr[p]
 //@ pred fullStaysFull() = forall q int :: !old(canDlv)[q] ==> !canDlv[q]
 
@@ -307,7 +310,8 @@ package directconnection
 // their loop-head values: the witnesses complete that last step from the names published by its two calls
 //@   witness src map = nsrc(gsrc, forwardMany_wdl0, forwardMany_wport)
 //@   witness idx map = nidx(gidx, forwardMany_wdl0, forwardMany_wr0)
-//@   witness lg map = nlog(glog, forwardMany_wdl0, forwardMany_wport, forwardMany_wr0, outRetr[forwardMany_wport])
+//@   witness prv map = nprv(gprv, forwardMany_wdl0, glst[forwardMany_wport])
+//@   witness lst map = nlst(glst, forwardMany_wport, forwardMany_wdl0, dlvN)
 //@   witness slot map = upd(gslot, forwardMany_wport, getPortIndex_widx)
 //@   label C10.tick.cursor
 //@   ensures m.comp.State.NextPortID == rr(1, old(m.comp.State.NextPortID), len(m.ports.ports)) && cursorOK(m)
@@ -318,7 +322,7 @@ package directconnection
 //@   label C10.tick.inorder
 //@   ensures tickInOrder(src, idx)
 //@   label C10.tick.nodrop
-//@   ensures tickNoDrop(src, idx, lg)
+//@   ensures tickChain(src, idx, prv) && tickLast(src, idx, lst)
 //@   label C10.tick.onlyplugged
 //@   ensures tickOnlyPlugged(m, slot) && retrGrows()
 //@   label C10.tick.logkept
@@ -332,8 +336,10 @@ package directconnection
 //@   loop 0: backedge gsrc = nsrc(gsrc, athead(dlvN), ifaceval(port))
 //@   loop 0: ghost gidx = mapof(j, 0)
 //@   loop 0: backedge gidx = nidx(gidx, athead(dlvN), athead(outRetr)[ifaceval(port)])
-//@   loop 0: ghost glog = mapof(j, 0)
-//@   loop 0: backedge glog = nlog(glog, athead(dlvN), ifaceval(port), athead(outRetr)[ifaceval(port)], outRetr[ifaceval(port)])
+//@   loop 0: ghost gprv = mapof(j, old(dlvN) - 1)
+//@   loop 0: ghost glst = mapof(j, old(dlvN) - 1)
+//@   loop 0: backedge gprv = nprv(gprv, athead(dlvN), glst[ifaceval(port)])
+//@   loop 0: backedge glst = nlst(glst, ifaceval(port), athead(dlvN), dlvN)
 //@   loop 0: ghost gslot = mapof(j, 0)
 //@   loop 0: backedge gslot = upd(gslot, ifaceval(port), portID)
 //@   loop 0: invariant numPorts == len(m.ports.ports) && numPorts > 0 && state.NextPortID == old(m.comp.State.NextPortID)
@@ -342,7 +348,8 @@ package directconnection
 //@   loop 0: invariant retrGrows() && logPrefixKept() && fullStaysFull()
 //@   loop 0: invariant tickDelivered(m, gsrc, gidx)
 //@   loop 0: invariant tickInOrder(gsrc, gidx)
-//@   loop 0: invariant tickNoDrop(gsrc, gidx, glog)
+//@   loop 0: invariant tickChain(gsrc, gidx, gprv)
+//@   loop 0: invariant tickLast(gsrc, gidx, glst)
 //@   loop 0: invariant tickOnlyPlugged(m, gslot)
 
 // ---- wake-ups: a sender that starts to fill an empty queue, or a receiver that regains room, makes the connection tick ----
